@@ -118,7 +118,9 @@ def segmentsAdd (o : Obj) : Obj :=
 /-- `segment::add_section_index(index, addr_align)` -/
 def segAddSection (g : Seg) (idx : BitVec 16) (align : BitVec 64) : Seg :=
   let g := { g with secs := g.secs ++ [idx] }
-  if BitVec.ult g.align align then { g with align := align } else g
+  -- `if ( addr_align > get_align() )`; the ELF32 instantiation has the same condition
+  -- (`save_segadd_raise32`, Lemmas/WriterSites.lean)
+  if save_segadd_raise align g.align then { g with align := align } else g
 
 /-! ### save: ordering -/
 
@@ -180,8 +182,18 @@ structure Layout where
   pos : BitVec 64
   gen : List Bool          -- section_generated
 
+/-- `sec->get_index()` (an `Elf_Half`) as the generated `0 != sec->get_index()` tests receive it.
+    `SecBuf.index` is a `Nat` that creation and loading keep below 65536; it is handed over saturated
+    at the largest `Elf_Half`, so that "not 0" means `index ≠ 0` for every value of the field. -/
+def secIndexHalf (b : SecBuf) : BitVec 16 := BitVec.ofNat 16 (min b.index 65535)
+
+/-- `if ( 0 != sec->get_index() ) sec->set_offset( v );` of `write_segment_data` -/
 def setOffset (c : Cls) (b : SecBuf) (v : BitVec 64) : SecBuf :=
-  if b.index != 0 then { b with offset := truncA c v } else b
+  if wsd_index_nonzero (secIndexHalf b) then { b with offset := truncA c v } else b
+
+/-- the same statement in `layout_sections_without_segments` -/
+def setOffsetLoose (c : Cls) (b : SecBuf) (v : BitVec 64) : SecBuf :=
+  if lsws_index_nonzero (secIndexHalf b) then { b with offset := truncA c v } else b
 
 /-- `calc_segment_alignment` -/
 def calcSegAlign (secs : List SecBuf) (g : Seg) : M Seg :=
@@ -298,18 +310,32 @@ def layoutLoose (c : Cls) (segs : List Seg) : List SecBuf → Nat → BitVec 64 
   | s :: rest, i, pos, acc =>
     if withoutSegment segs i then
       let pos := if lsws_need_align s.addrAlign pos then lsws_aligned pos s.addrAlign else pos
-      let s := setOffset c s pos
+      let s := setOffsetLoose c s pos
       let pos := if lsws_occupies s.stype then lsws_advance pos s.size else pos
       layoutLoose c segs rest (i + 1) pos (s :: acc)
     else layoutLoose c segs rest (i + 1) pos (s :: acc)
 
 /-! ### save: writing -/
 
+/-- `get_type() != SHT_NOBITS && get_type() != SHT_NULL && get_size() != 0 && get_data() != nullptr` of
+    `section_impl<T>::save` (`b` is the section after that `get_data()`) -/
+def secWritesData (c : Cls) (b : SecBuf) : Bool :=
+  match c with
+  | .c32 => save_sec_writes_data32 b.stype b.size b.data.isNone
+  | .c64 => save_sec_writes_data b.stype b.size b.data.isNone
+
+/-- the first three conjuncts of that condition: `get_data()` — which makes lazily loaded data
+    resident — is only evaluated when they hold (`&&` short-circuit) -/
+def secWantsData (c : Cls) (b : SecBuf) : Bool :=
+  match c with
+  | .c32 => save_sec_wants_data32 b.stype b.size
+  | .c64 => save_sec_wants_data b.stype b.size
+
 def saveSection (c : Cls) (enc : Enc) (shoff : BitVec 64) (shentsize : BitVec 16) (os : OStream) (b : SecBuf) : OStream :=
   let hp : Int := shoff.toInt + (Int.ofNat shentsize.toNat) * (Int.ofNat b.index)
   let os := (os.adjust hp).write (encodeShdr c enc b)
   -- `b` is the section after the `get_data()` that `section_impl::save` performs
-  if b.stype != BitVec.ofNat 32 SHT_NOBITS && b.stype != BitVec.ofNat 32 SHT_NULL && b.size != 0 && b.data.isSome then
+  if secWritesData c b then
     (os.adjust b.offset.toInt).write ((b.data.getD []).take b.size.toNat)
   else os
 
@@ -320,7 +346,7 @@ def saveSectionImpl (c : Cls) (enc : Enc) (shoff : BitVec 64) (shentsize : BitVe
   if os.fail then os else
   let hp : Int := shoff.toInt + (Int.ofNat shentsize.toNat) * (Int.ofNat b.index)
   let os := (os.adjust hp).write (encodeShdr c enc b)
-  if b.stype != BitVec.ofNat 32 SHT_NOBITS && b.stype != BitVec.ofNat 32 SHT_NULL && b.size != 0 && b.data.isSome then
+  if secWritesData c b then
     (os.adjust b.offset.toInt).write ((b.data.getD []).take b.size.toNat)
   else os
 
@@ -340,7 +366,7 @@ def saveSectionImpl (c : Cls) (enc : Enc) (shoff : BitVec 64) (shentsize : BitVe
 def residentForSave (c : Cls) (tr : List Trans) : List SecBuf → LoadSt → List SecBuf → List SecBuf × LoadSt
   | [], ls, acc => (acc.reverse, ls)
   | b :: rest, ls, acc =>
-    if b.stype != BitVec.ofNat 32 SHT_NOBITS && b.stype != BitVec.ofNat 32 SHT_NULL && b.size != 0 then
+    if secWantsData c b then
       let (ls, b) := secGetData c tr ls b
       residentForSave c tr rest ls (b :: acc)
     else residentForSave c tr rest ls (b :: acc)
